@@ -37,6 +37,8 @@ MSimulateM(MM, x, c, z) == VSub(PhiM(MM, z), VScale(Red(c), x))
 \* with the anchor pre-image = identity the result is  beta (z1 - z2),  beta = (e1 - e2)^-1 mod Q
 CanExtract(c1, c2) == Red(c1) # Red(c2)
 MExtract(c1, z1, c2, z2) == VScale(Inv(Sub(Red(c1), Red(c2))), VSub(z1, z2))
+\* the same relation without computing an inverse (cheap for large Q): (e1 - e2) wx = z1 - z2
+IsExtract(c1, z1, c2, z2, wx) == Len(wx) = Len(z1) /\ VScale(Sub(Red(c1), Red(c2)), wx) = VSub(z1, z2)
 \* block-diagonal matrix: the product map (AND-composition with a shared challenge)
 BlockDiag(A, B) == [i \in 1..(NRows(A) + NRows(B)) |-> [j \in 1..(NCols(A) + NCols(B)) |->
                       IF i <= NRows(A) /\ j <= NCols(A) THEN A[i][j]
